@@ -175,6 +175,18 @@ REGISTRY["C14"] = dict(
     explanation="Clauses C14-a..c of DESIGN.md §3 on MIR facts of the current tree and spec/builtin_{aliases,signatures}.json. NOT decided: the values the functions return.",
     assumptions=TRUSTED + ["spec tables transcribed from the Sass documentation"],
 )
+REGISTRY["C12"] = dict(
+    module="c12",
+    level="other",
+    technique="static analysis: predicate-sensitive guard analysis of the member views (sibling agreement across the MapView interface), must-reach flow of show/hide lists, registry table agreement, guard/pairing rules for the module cache and the active-module set, must-pass-through of assert_public at namespaced constructions",
+    claim=(
+        "Structural clauses: (a) Public/Limited/Prefixed member views forward get/remove/insert only under their predicate and list keys consistently; (b) @forward show/hide lists reach LimitedMapView on top of the prefixed view; "
+        "(c) sass:math/meta/selector/color members equal their global aliases; (d) execute() evaluates only on a cache miss and registers the module, load_module brackets execute with the active-module set and errors on a loop; "
+        "(e) every namespaced member reference built by the parser passed assert_public. NOT decided: `with` configuration semantics, diamond/emission order, namespace shadowing."
+    ),
+    explanation="Clauses C12-a..e of DESIGN.md §3 on MIR facts of the current tree. NOT decided: configuration semantics, CSS emission order across modules.",
+    assumptions=TRUSTED + ["spec/builtin_aliases.json transcribed from the Sass documentation"],
+)
 
 UNBUILT = "check not built yet in this session (design in DESIGN.md §3); not claimed until its rules run clean on the pinned tree"
 NOT_APPLICABLE = {
